@@ -1,4 +1,5 @@
 pub mod c01;
+pub mod c02;
 pub mod c03;
 pub mod c04;
 pub mod c05;
@@ -23,6 +24,7 @@ use crate::core::Report;
 pub fn dispatch(p: &str, rep: &mut Report) -> bool {
     match p {
         "C01" => c01::run(rep),
+        "C02" => c02::run(rep),
         "C03" => c03::run(rep),
         "C04" => c04::run(rep),
         "C05" => c05::run(rep),
